@@ -280,7 +280,11 @@ func genPred(r *Rand, t table, depth int, tags *[]string) *Expr {
 	default:
 		tag("in-subquery")
 		sub := &Stmt{From: &From{K: "table", Path: []string{"<-", "vals"}}, Items: []Item{{E: Col("v")}}}
-		return &Expr{K: "insub", A: Col(Pick(r, t.numCols)), Q: sub}
+		neg := r.Chance(35)
+		if neg {
+			tag("notin-subquery")
+		}
+		return &Expr{K: "insub", Neg: neg, A: Col(Pick(r, t.numCols)), Q: sub}
 	}
 }
 
